@@ -1,9 +1,9 @@
 INIT Init
 NEXT Next
 CONSTANT Mode = "c08"
-CONSTANT PartN = 3
+CONSTANT PartN = 4
 CONSTANT PartSubN = 0
-CONSTANT OneFileN = 4
+CONSTANT OneFileN = 0
 CONSTANT MachN = 3
 CONSTANT ProgN = 0
 CONSTANT MachPaths = 0
